@@ -28,11 +28,13 @@ class Observer(ConvergenceController):
 
     blocks = []
     max_blocks = None
+    capture_nodes = False
 
     @classmethod
-    def reset(cls, max_blocks=None):
+    def reset(cls, max_blocks=None, capture_nodes=False):
         cls.blocks = []
         cls.max_blocks = max_blocks
+        cls.capture_nodes = capture_nodes
 
     def setup(self, controller, params, description, **kwargs):
         return {'control_order': -1000, **super().setup(controller, params, description, **kwargs)}
@@ -64,6 +66,10 @@ class Observer(ConvergenceController):
                     'last': T.status.last,
                 }
             )
+            if type(self).capture_nodes:
+                blk[-1]['U'] = [None if x is None else np.array(x, copy=True) for x in L.u]
+                blk[-1]['F'] = [None if x is None else np.array(x, copy=True) for x in L.f]
+                blk[-1]['level_residual'] = L.status.residual
         type(self).blocks.append(blk)
         if type(self).max_blocks is not None and len(type(self).blocks) >= type(self).max_blocks:
             raise StopRun()
